@@ -102,7 +102,7 @@ def plan(tier, seed, k):
     # base requests in up to two dimensions
     if big:
         add("pairs", 16, RouteSpace="Pairs", Asks="Vary2(Q1) \\cup Vary2(Q2)", Usrs=S(["alice", "mallory", ""]),
-            Sips=S([Id(A4), Id(A4m), Id(B4), Id(D4)]), Ports=S([0, 443, 1000, 2001, 30001, 65535]), Behs=behs(BEH_SMALL[:4]),
+            Sips=S([Id(A4), Id(A4m), Id(B4), Id(D4)]), Ports=S([0, 443, 2001, 30001]), Behs=behs(BEH_SMALL[:4]),
             IpTargets=S([Id(A4), Id(A4m), Id(D4)]), DomTargets=S(["www.example.com", "other.test"]))
     else:
         add("pairs", 5, RouteSpace="Pairs", Asks="Vary2(Q1) \\cup Vary2(Q2)", SrvVars=S(["s0"]), UsrVars=S(["a"]),
@@ -121,7 +121,7 @@ def plan(tier, seed, k):
     order_asks = ('{[Q1 EXCEPT !.net = n, !.usr = u, !.sip = s, !.tport = p, !.tk = t.tk, !.ta = t.ta, !.b = t.b] : '
                   'n \\in Nets, u \\in {"alice", "mallory"}, s \\in %s, p \\in {0, 443}, t \\in Tgts}')
     add("order", 16 if big else 3, RouteSpace="Templates", MaxRoutes=4 if big else 3,
-        DefaultSpace="{%s, %s, %s}" % (D_C0, D_REJ, D_UNSET) if big else "{%s, %s}" % (D_C0, D_REJ),
+        DefaultSpace="{%s, %s}" % (D_C0, D_REJ),
         Asks=order_asks % "{A4}",
         INVARIANTS=light + (" ImplRefinesDecl" if big else ""), PROPERTIES="GetIsPure AppendLaw" if big else "GetIsPure", **tgts)
     # design (quick only; thorough checks the invariants in every run): all invariants and action properties of the
@@ -130,11 +130,11 @@ def plan(tier, seed, k):
         add("design", 3, RouteSpace="Templates", MaxRoutes=2, DefaultSpace="{%s, %s}" % (D_C0, D_UNSET),
             Asks=order_asks % "{A4, D4}", INVARIANTS=heavy, PROPERTIES="GetIsPure AppendLaw", **tgts)
     # random: seeded route lists of 0..6 routes, every field independent
-    n = 2500 if big else 160
+    n = 1200 if big else 160
     add("random", 16 if big else 3, RouteSpace="GivenAt", StartGuard="routes \\in Given", MaxRoutes=6,
         Given=random_lists(rnd, n, 6, ALL_PORTS, ALL_PFX, ALL_DOM),
         Asks="Vary2(Q1) \\cup Vary2(Q2)" if big else "Vary2(Q1) \\cup Vary(Q2)", Usrs=S(["alice", "mallory", ""]),
-        Sips=S([Id(A4), Id(A4m), Id(B4), Id(D4)]), Ports=S([0, 443, 1000, 2001, 30001, 65535] if big else PORTS_SMALL),
+        Sips=S([Id(A4), Id(A4m), Id(B4), Id(D4)]), Ports=S([0, 443, 2001, 30001] if big else PORTS_SMALL),
         Behs=behs(BEH_SMALL[:4]), IpTargets=S([Id(A4), Id(A4m), Id(D4)]), DomTargets=S(["www.example.com", "other.test"]),
         INVARIANTS=light + " ImplRefinesDecl")
     return runs
